@@ -1,7 +1,7 @@
 (* C13 correspondence: what the harness observed of the real mutateAccounts /
    mutatePaths (on apkfs.NewMemFS() and tarfs.New()), compared with the model
    and judged by the validators of Spec/AccountsSpec.v and Spec/PathMutSpec.v. *)
-From Apko Require Export Base.Prelude Model.C13Fs Model.Accounts Model.PathMut Generated.C13Consts Spec.AccountsSpec Spec.PathMutSpec.
+From Apko Require Export Base.Prelude Model.C13Fs Model.Accounts Model.PathMut Model.C13Build Generated.C13Consts Spec.AccountsSpec Spec.PathMutSpec.
 Open Scope string_scope. Open Scope list_scope.
 
 (* ---- building the initial tree: the same calls on both sides -------------- *)
@@ -11,7 +11,12 @@ Inductive setup_op :=
 | SSymlink (target p : string)
 | SLink (old new : string)
 | SChmod (p : string) (perm : N)
-| SChown (p : string) (u g : N).
+| SChown (p : string) (u g : N)
+| SFill (p : string) (size : N) (perm : N)       (* a regular file of [size] bytes whose content does not matter *)
+| SPkgFile (p : string) (content : string) (perm : N)   (* tarfs: a file backed by a package's tar entry (lazy installation) *)
+| SPkgFill (p : string) (size : N) (perm : N).
+
+Fixpoint fill_nat (n : nat) : string := match n with O => "" | S k => String "x"%char (fill_nat k) end.
 
 Definition backend_maxl (backend : nat) : nat :=
   N.to_nat (match backend with O => memfs_max_links | _ => tarfs_max_links end).
@@ -19,6 +24,11 @@ Definition backend_maxl (backend : nat) : nat :=
 Definition write_file (maxl : nat) (f : fs) (p : path) (content : string) (perm : N) : fres fs :=
   fdo r <- openfile maxl maxl f p perm;
   let (f', i) := r in FOk (upd f' i (fun n => with_data n content)).
+
+Definition pkg_file (maxl : nat) (f : fs) (p : path) (content : string) (perm : N) : fres fs :=
+  fdo r <- openfile maxl maxl f p perm;
+  let (f', i) := r in
+  FOk (upd f' i (fun n => mkNode (nkind n) (nperm n) (nuid n) (ngid n) (ntarget n) "" (nchildren n) content)).
 
 Definition run_setup_op (maxl : nat) (f : fs) (o : setup_op) : fres fs :=
   match o with
@@ -28,6 +38,9 @@ Definition run_setup_op (maxl : nat) (f : fs) (o : setup_op) : fres fs :=
   | SLink o n => link maxl f (path_of o) (path_of n)
   | SChmod p perm => chmod maxl f (path_of p) perm
   | SChown p u g => chown maxl f (path_of p) u g
+  | SFill p size perm => write_file maxl f (path_of p) (fill_nat (N.to_nat size)) perm
+  | SPkgFile p c perm => pkg_file maxl f (path_of p) c perm
+  | SPkgFill p size perm => pkg_file maxl f (path_of p) (fill_nat (N.to_nat size)) perm
   end.
 Fixpoint run_setup (maxl : nat) (f : fs) (os : list setup_op) : fres fs :=
   match os with
@@ -39,7 +52,7 @@ Definition root_perm : N := 493.   (* both constructors: fs.ModeDir | 0o755 *)
 Definition stat_info (maxl : nat) (f : fs) (p : string) : option sinfo :=
   match stat maxl f (path_of p) with FOk n => Some (sinfo_of n) | _ => None end.
 Definition file_text (maxl : nat) (f : fs) (p : path) : string :=
-  match gnode maxl f p with FOk n => ndata n | _ => "" end.
+  match gnode maxl f p with FOk n => edata n | _ => "" end.
 
 (* ---- accounts --------------------------------------------------------------- *)
 Record acc_case := {
@@ -179,7 +192,7 @@ Definition model_step (maxl : nat) (f : fs) (m : mutation) : step_obs :=
   let p := path_of (m_path m) in
   mkStep (match direct maxl f p with FOk n => Some (dentry_of "" n) | _ => None end)
          (match stat maxl f p with FOk n => Some (sinfo_of n) | _ => None end)
-         (match stat maxl f p with FOk n => strlen (ndata n) | _ => 0%N end)
+         (match stat maxl f p with FOk n => strlen (edata n) | _ => 0%N end)
          (match stat maxl f (path_of (m_source m)) with FOk n => Some (sinfo_of n) | _ => None end)
          (match gn maxl f p with FOk i => dump_from (S (List.length f)) f i "" | _ => [] end).
 
@@ -245,3 +258,100 @@ Definition path_mismatches (c : path_case) : list string :=
   end.
 
 Definition check_path (c : path_case) : list string := path_violations c ++ path_mismatches c.
+
+(* ---- end to end ----------------------------------------------------------------
+   One generated image configuration went through the real pipeline (build.New,
+   BuildLayer and oci.BuildImageFromLayer, or the apko CLI); everything below
+   [eo_] is what the harness's own tar reader and resolver saw in the emitted
+   layer and image config.
+   - [eo_old_*]: the passwd/group text the selected packages ship, read by the
+     harness's reader ([Some []] when no package ships the file);
+   - [eo_homes]: per configured user (judged?, (Stat(home) in a build of the same
+     packages with the EARLIER users only and NO path mutations, Stat(home) in
+     the final layer)); "already existed" means: existed once the packages and
+     the earlier accounts were in place — a directory made by this build's own
+     path mutations does not count.  Not judged when a declared mutation names
+     the home itself, resolves to it, is recursive above it or links to it (the
+     mutation's own post-condition then speaks about it);
+   - [eo_steps]: per mutation (judged?, observation of its path in the final
+     layer); judged when no LATER mutation may touch what it reads or changes
+     (an over-approximation computed by the harness; last declaration wins);
+   - [e_setup]: the layer of a build of the same packages with nothing
+     declared, as setup operations: the model of the pipeline is run on it and
+     the whole final layer compared ([None] when that build failed).  On tarfs
+     the regular files shipped by packages are backed by their tar entries. *)
+Record e2e_case := {
+  e_backend : nat;                         (* filesystem handed to build.New: 0 = apkfs.NewMemFS, 1 = tarfs.New (what `apko build` uses) *)
+  e_setup : option (list setup_op);
+  e_users : list cuser; e_groups : list cgroup; e_run_as : string; e_muts : list mutation;
+  eo_err : bool;
+  eo_old_users : option (list user_entry); eo_old_groups : option (list group_entry);
+  eo_users : option (list user_entry); eo_groups : option (list group_entry);
+  eo_passwd : string; eo_group : string;
+  eo_config_user : string;
+  eo_homes : list (bool * (option sinfo * option sinfo));
+  eo_steps : list (bool * step_obs);
+  eo_layer : list dentry
+}.
+
+Definition e2e_home_violations (uh : cuser * (bool * (option sinfo * option sinfo))) : list string :=
+  let (u, jh) := uh in
+  let (judged, h) := jh in
+  if String.eqb (spec_home u) spec_no_home || negb judged then [] else
+  tag_if (negb (home_realised_b (cu_uid u) (spec_gid u) (fst h) (snd h)))
+    (match fst h with None => "viol:home-not-0700-owned-by-user" | Some _ => "viol:existing-home-modified" end).
+
+Definition e2e_violations (c : e2e_case) : list string :=
+  if eo_err c then [] else
+  (match eo_old_users c, eo_users c with
+   | Some old, Some new =>
+       tag_if (negb (passwd_realised_b old (e_users c) new)) "viol:passwd-not-old-plus-configured" ++
+       tag_if (negb (run_as_resolved_b (e_run_as c) new (eo_config_user c))) "viol:run-as-not-first-match"
+   | _, _ => ["viol:passwd-unreadable"]
+   end) ++
+  (match e_groups c with
+   | [] => []
+   | _ => match eo_old_groups c, eo_groups c with
+          | Some old, Some new =>
+              tag_if (negb (group_file_realised_b old (e_groups c) new)) "viol:group-not-old-plus-configured"
+          | _, _ => ["viol:group-unreadable"]
+          end
+   end) ++
+  List.concat (List.map e2e_home_violations (zip3 (e_users c) (eo_homes c))) ++
+  tag_if (negb (Nat.eqb (List.length (eo_homes c)) (List.length (e_users c)) &&
+                Nat.eqb (List.length (eo_steps c)) (List.length (e_muts c)))) "viol:e2e-observation-incomplete" ++
+  List.concat (List.map (fun mo : mutation * (bool * step_obs) =>
+                 if fst (snd mo) then realised_tags (fst mo) (snd (snd mo)) else [])
+               (zip3 (e_muts c) (eo_steps c))).
+
+(* /dev and /tmp belong to other steps of the pipeline (device nodes, Go's
+   sticky bit); the size of etc/apko.json depends on the JSON text *)
+Definition e2e_outside (d : dentry) : bool :=
+  String.eqb (d_path d) "tmp" || String.eqb (d_path d) "dev" || String.prefix "dev/" (d_path d).
+Definition e2e_norm (l : list dentry) : list dentry :=
+  List.map (fun d => if String.eqb (d_path d) (rel_name apko_config_path)
+                     then mkDentry (d_path d) (d_kind d) (d_perm d) (d_uid d) (d_gid d) (d_target d) 0 else d)
+           (filter (fun d => negb (e2e_outside d)) l).
+
+Definition e2e_mismatches (c : e2e_case) : list string :=
+  let maxl := backend_maxl (e_backend c) in
+  match e_setup c with
+  | None => []
+  | Some ops =>
+      match run_setup maxl (empty_fs root_perm) ops with
+      | FOk f0 =>
+          match build_image maxl f0 (e_users c) (e_groups c) (e_run_as c) (e_muts c) with
+          | FFuel => ["mismatch:model-out-of-fuel"]
+          | FOk (f1, ra) =>
+              if eo_err c then ["mismatch:impl-error-model-ok"] else
+              tag_if (negb (String.eqb ra (eo_config_user c))) "mismatch:run-as" ++
+              tag_if (negb (String.eqb (file_text maxl f1 etc_passwd) (eo_passwd c))) "mismatch:passwd-text" ++
+              tag_if (negb (String.eqb (file_text maxl f1 etc_group) (eo_group c))) "mismatch:group-text" ++
+              tag_if (negb (dump_same (e2e_norm (layer_of f1)) (e2e_norm (eo_layer c)))) "mismatch:layer"
+          | _ => tag_if (negb (eo_err c)) "mismatch:model-error-impl-ok"
+          end
+      | _ => ["mismatch:setup"]
+      end
+  end.
+
+Definition check_e2e (c : e2e_case) : list string := e2e_violations c ++ e2e_mismatches c.
